@@ -2,11 +2,15 @@
   Line-protocol adapter for the minter family (m.* ops).
 -/
 import C4E.Minter
+import C4E.Upgrade
 import C4E.Proto
 namespace C4E.Drv.Minter
 open C4E C4E.Minter C4E.Proto
 
 structure W where
+  legacyDenom : String := ""
+  legacyStart : Int := 0
+  legacy : List C4E.Upgrade.LegacyM := []
   raw : RawParams := { denom := "", start := 0, minters := [] }
   params : Params := { denom := "", start := 0, minters := [] }
   st : St := { seq := 0, minted := 0, remToMint := 0, remPrev := 0, last := 0 }
@@ -108,6 +112,27 @@ def step (w : W) (toks : List String) : W × String :=
     match updateParams authOk w.st raw with
     | none => (w, "err")
     | some p => ({ w with params := p }, "ok")
+  | ["m.up.cfg", denom, start] =>
+    match int? start with
+    | some s => ({ w with legacyDenom := unesc denom, legacyStart := s, legacy := [] }, ".")
+    | none => (w, "bad-op")
+  | ["m.up.period", seq, e, ty, lin, exp] =>
+    let linV : Option (Option Int) := if lin = "nil" then some none else (int? lin).map some
+    let expV : Option (Option (Int × Int × Int)) :=
+      if exp = "nil" then some none else
+      match exp.splitOn "/" with
+      | [a, st, mu] => match int? a, int? st, int? mu with
+        | some a, some st, some mu => some (some (a, st, mu))
+        | _, _, _ => none
+      | _ => none
+    match nat? seq, optInt? e, linV, expV with
+    | some seq, some e, some l, some x =>
+      ({ w with legacy := w.legacy ++ [{ seq := seq, endT := e, type := unesc ty, lin := l, exp := x }] }, ".")
+    | _, _, _, _ => (w, "bad-op")
+  | ["m.up.migrate3"] =>
+    match C4E.Upgrade.migrateMinterV3 w.legacyDenom w.legacyStart w.legacy with
+    | some p => ({ w with params := p }, "ok p=" ++ showParams p)
+    | none => (w, "err")
   | ["m.params"] => (w, "ok p=" ++ showParams w.params)
   | ["m.end"] => (w, ".")
   | _ => (w, "bad-op")
